@@ -15,6 +15,9 @@ CHECKS = {
  "C07": dict(tech="static analysis: lockset over package-level state, guarded-growth must-pass path queries, heap/map pairing and ordering rules on SSA",
    text="Structural necessary conditions decided exactly for their clause: every accessor of the timestamp store holds tssMu from before its first access to function exit (no early unlock, goroutine, channel op, pointer escape; heap methods only via container/heap inside holders) - hence race freedom and one critical section per operation; map inserts only where len(tss)!=2^20 or after a delete, per-client count grows only where len!=8, eviction only under full && !min.After(rxt) with delete of the popped key; insert<->Push, delete<->Pop/Remove, qval store->heap.Fix, rank decision on the pre-update buffer, Swap/Push/Pop/Less back-pointers and order. Heap order over histories is not decided.",
    ref="DESIGN.md §4 C07"),
+ "C14": dict(tech="static analysis: writer/reader table extraction and comparison for fixed-layout codecs on SSA, decoder-totality path queries, truth tables for the LVM accessors, tag/arm agreement rules, full-read rule",
+   text="Decided exactly for the fixed layouts (NTP header, CSPTP message, request/response TLVs, 48-bit timestamp): encoder and decoder byte<->(field,shift) relations are equal, each field byte once, offsets cover the declared length once, decoder assigns every field on every success path - which is round-trip/re-encode equality for these codecs; LVM accessors verified on all 256x256 cases; NTS extension type written == type accepted per kind, pairwise distinct, dispatch by kind, 4-byte padding; cookie TLV tag sets equal; NTS-KE record arms, nil only at end-of-message, stream consumed only by full reads. Variable-length fields for all lengths are not decided.",
+   ref="DESIGN.md §4 C14"),
 }
 NA = {
  "C04": "all clauses are value arithmetic over time.Time/uint32 (truncation direction, era unfolding, order preservation); no structural or finite-domain clause; matching the constants would be a frozen-fragment proxy",
